@@ -48,6 +48,7 @@ def tally_case(ctx, c, summ):
 
 def run(ctx):
     translate.check_link(ctx, "C01")  # regenerate Gallina from /repo's current source; link lemmas coq/link/C01Link.v
+    translate.check_link(ctx, "C15")  # the encoder functions C01 rests on (windows, pair terms, makespan term) are linked under the C15 spec
     ctx.rule = ("corpus first; random valid instances (1-3 jobs, 1-3 machines, <=6 operations, durations 1-3, all shapes of C15) x limits with slack 0-3 "
                 "and 1-10 qubits x penalty configurations (defaults; all equal; W = constraint penalties < Pe; strictly ordered; random in regime; "
                 "small dyadic numbers) x share in {0, 1/2, 1, k/8} x ALL 2^n basis states; a few out-of-regime configurations for the correspondence only; "
@@ -62,6 +63,8 @@ def run(ctx):
         ctx.notes["exhaustive_small_scope"] = "all instances with <= 2 jobs x <= 2 operations on 2 machines, durations <= 2, slack 0..2 with 1..10 qubits, one penalty configuration each, all basis states"
     cases += [dict(je.gen_contended_case(ctx.rng, share=None), kind=PID.lower()) for _ in range(ctx.n(24, 250))]
     cases += [dict(je.gen_large_slack_case(ctx.rng, share=ctx.rng.choice([0, 0, 0.5, 0.25])), kind=PID.lower()) for _ in range(ctx.n(6, 60))]
+    # (n_jobs+1)^limit >= 2^63: long operations (all basis states) and unit operations (selected states, exact energies)
+    cases += [dict(je.gen_huge_limit_case(ctx.rng, share=ctx.rng.choice([0, 0, 0.5]), kind=k), kind=PID.lower()) for k in ["long", "long", "unit"] * ctx.n(1, 12)]
     for c in cases:
         summ = je.examiner(c)(ctx, batch, c, WANT, ctx.rng)
         tally_case(ctx, c, summ)
